@@ -755,6 +755,13 @@ impl<E: El, I: Item<E>> World<E, I> {
             Op::Set(i, k) => t.v_set(i as usize, mk(k)),
             Op::Remove(i) => t.v_remove(i as usize),
             Op::Truncate(n) => t.v_truncate(n as usize),
+            Op::AppendRun(cnt, k) => {
+                let mut v = Vector::new();
+                for _ in 0..cnt {
+                    v.push_back(mk(k));
+                }
+                t.v_append(v)
+            }
             Op::BurstSet0(n) => {
                 for _ in 0..n {
                     t.v_set(0, mk(0));
